@@ -485,6 +485,12 @@ func partAlphabet(o Opts) (lits []ex.Part, seqs []ex.Part) {
 		ex.Part{K: "for", E: ex.Var("nl"), ValVar: "v", Then: []ex.Part{ex.Lit("x")}, Strip: [][2]bool{{}, {}}},
 		ex.Part{K: "for", E: ex.Var("ss"), KeyVar: "k", ValVar: "v", Then: []ex.Part{ex.Interp(ex.Bin("==", ex.Var("k"), ex.Var("v")))}, Strip: [][2]bool{{}, {}}},
 		ex.Part{K: "if", E: ex.Var("bt"), Then: []ex.Part{ex.Part{K: "for", E: ex.Var("ln"), ValVar: "v", Then: []ex.Part{ex.Interp(ex.Var("v"))}, Strip: [][2]bool{{}, {}}}}, Strip: [][2]bool{{}, {}, {}}},
+		// branches that are exactly one interpolation, of types that have no common type other than through the string rendering
+		ex.Part{K: "if", E: ex.Var("bt"), Then: []ex.Part{ex.Interp(ex.Var("bt"))}, HasElse: true, Else: []ex.Part{ex.Interp(ex.Var("one"))}, Strip: [][2]bool{{}, {}, {}}},
+		ex.Part{K: "if", E: ex.Var("bf"), Then: []ex.Part{ex.Interp(ex.Var("one"))}, HasElse: true, Else: []ex.Part{ex.Interp(ex.Var("bt"))}, Strip: [][2]bool{{}, {}, {}}},
+		ex.Part{K: "if", E: ex.Var("bt"), Then: []ex.Part{ex.Interp(ex.Var("sa"))}, HasElse: true, Else: []ex.Part{ex.Interp(ex.Var("ln"))}, Strip: [][2]bool{{}, {}, {}}},
+		ex.Part{K: "if", E: ex.Var("bt"), Then: []ex.Part{ex.Interp(ex.Var("one"))}, Strip: [][2]bool{{}, {}, {}}},
+		ex.Part{K: "for", E: ex.Var("t"), ValVar: "v", Then: []ex.Part{ex.Interp(ex.Var("v"))}, Strip: [][2]bool{{}, {}}},
 	)
 	return
 }
